@@ -120,6 +120,17 @@ def gather_cases(tier):
                 for res in (("ta" * n)[:n], ("at" * n)[:n], "a" * n):
                     for mc in (1, 2):
                         yield dict(kind="gather", n=n, es=es, res=res, mc=mc, k=2, setup=list(st))
+    # A || (B ; C) and then a probe, on an object whose setup nodes are pending at the start; coroutine objects created up front or not
+    for n in (2, 3):
+        for es in shapes(n):
+            if n == 3 and len(es) != 2:
+                continue
+            for st in up_closed_sets(n, es):
+                if len(st) == n:
+                    continue
+                for res in ("a" * n, ("at" * n)[:n]):
+                    for precreate in (False, True):
+                        yield dict(kind="gather", n=n, es=es, res=res, mc=2, k=3, setup=list(st), chain=True, probe=True, precreate=precreate)
     # one of the concurrent awaits fails (a root node raises for await #0's argument) while sibling nodes / awaits are in flight:
     # the others are unaffected and the loop thread is never blocked on a running node
     for n in (2, 3):
@@ -157,7 +168,7 @@ def run_gather(acc, c, only_prefix=None):
     acc.cases += 1
     d, ns = build_gprog(p)
     src = p.source()
-    argv = [f"arg{i}" for i in range(k)]
+    argv = [f"arg{i}" for i in range(k + 1)]
     H.FAIL_IF_ARG.clear()
     failing = c.get("failing")
     if failing is not None:
@@ -176,9 +187,12 @@ def run_gather(acc, c, only_prefix=None):
             ctl.driver = drv
             holder["drv"] = drv
 
+            # (precreate: every coroutine object exists before the first one is awaited - `coros = [adag(a) for a in args]`)
+            coros = [d(argv[i]) for i in range(k)] if c.get("precreate") else None
+
             async def aw(i):
                 try:
-                    return ("ok", await d(argv[i]))
+                    return ("ok", await (coros[i] if coros is not None and i < k else d(argv[i])))
                 except BaseException as e:  # noqa: BLE001
                     return ("exc", e)
 
@@ -203,7 +217,14 @@ def run_gather(acc, c, only_prefix=None):
                     parts = await asyncio.gather(one(0), chain_of(list(range(1, k))))
                 else:
                     parts = await asyncio.gather(*[one(i) for i in range(k)])
-                return [r for part in parts for r in part]
+                out = [r for part in parts for r in part]
+                if c.get("probe"):
+                    # one more await after everything has ended: it starts from what the DAG object holds NOW
+                    drv.active = 1
+                    drvt2 = asyncio.ensure_future(drv.run())
+                    out += await one(k)
+                    await asyncio.gather(drvt2, return_exceptions=True)
+                return out
             finally:
                 drv.stop = True
                 drv.active = 0
@@ -254,6 +275,23 @@ def run_gather(acc, c, only_prefix=None):
                 want = tuple(argv[i] if ed.src < 0 else (val[ed.src] if ed.src in setup_idx else Tok(ids[ed.src], s)) for ed in p.nodes[j].edges)
                 if tuple(e[5]) != want:
                     acc.violation(V("await_foreign_value", f"await #{i} (argument {argv[i]}): {e[1]} received {e[5]!r}, expected {want!r}"), c, pfx, res.trace, src)
+        # an await that STARTS after another await of the same object has ENDED finds the setup results stored: it neither runs a setup
+        # node again nor sees another value than every later await (the stored value never changes)
+        setup_idx = {j for j, nd in enumerate(p.nodes) if nd.setup}
+        if setup_idx and all(st == "ok" and isinstance(val, tuple) and len(val) == len(ids) for st, val in res.value):
+            late = ([2] if c.get("chain") else []) + ([k] if c.get("probe") else [])
+            for i in late:
+                val = res.value[i]
+                s_i = next((t.serial for j, t in enumerate(val[1]) if isinstance(t, Tok) and j not in setup_idx), None)
+                again = [e[1] for e in by_serial.get(s_i, []) if ids.index(e[1]) in setup_idx]
+                if again:
+                    acc.violation(V("setup_rerun_by_late_await", f"await #{i} started after another await had ended and entered the setup node(s) {again} again"),
+                                  c, pfx, res.trace, src)
+            if len(late) == 2:
+                a_, b_ = res.value[late[0]][1], res.value[late[1]][1]
+                if any(a_[j] != b_[j] for j in setup_idx):
+                    acc.violation(V("stored_setup_result_changed", f"await #{late[0]} saw the setup results {[a_[j] for j in sorted(setup_idx)]}, the later await #{late[1]} "
+                                    f"{[b_[j] for j in sorted(setup_idx)]}: the stored value changed"), c, pfx, res.trace, src)
         # liveness: while an async-thread node was in flight the ticker made progress
         for (nid, s, what), t in drv.tick_at.items():
             if what == "enter" and nid in ids and p.nodes[ids.index(nid)].res == "a":
